@@ -60,6 +60,11 @@ def _expand(spec):
         if spec.get("final_nl") and n > 0 and out[n - 1] < 0x80:
             out[n - 1] = 10
         return bytes(out)
+    if t == "eth":  # Ethernet frame with an ethertype p2sh does not parse further; rest random
+        b = bytearray(Rng(spec["seed"]).bytes(max(n, 14)))
+        b[12] = (spec["etype"] >> 8) & 0xFF
+        b[13] = spec["etype"] & 0xFF
+        return bytes(b[:max(n, 14)])
     if t == "pattern":  # (i*mul+add)%256
         mul, add = spec.get("mul", 7), spec.get("add", 3)
         period = bytes(((i * mul + add) % 256) for i in range(256))
@@ -77,14 +82,17 @@ def shrink_spec(spec):
             yield {"t": "lit", "hex": b[:-1].hex()}
         return
     n = spec.get("n", 0)
-    for m in (0, n // 2, n - 1024, n - 64, n - 1):
-        if 0 <= m < n:
+    lo = 14 if t == "eth" else 0
+    for m in (lo, n // 2, n - 1024, n - 64, n - 1):
+        if lo <= m < n:
             s = dict(spec)
             s["n"] = m
             yield s
     if t in ("bin", "binnl", "text"):
         s = {"t": "pattern", "n": n}
         yield s
+    if t == "eth":
+        return
     if t == "pattern" and n > 0:
         yield {"t": "zero", "n": n}
 
